@@ -21,7 +21,7 @@ FILTER_MON = {"mon_filter": {"sources": ["mon_filter.c", "vf.c"]}}
 C01_MON = {"mon_c01": {"sources": ["mon_c01.c", "vf_req.c", "ref_pixel.c", "ref_ops.c", "vf.c"]}}
 GENERAL_ONLY = {"PIXMAN_DISABLE": "fast mmx sse2 ssse3"}
 
-CHAIN_MON = {"mon_chain": {"sources": ["mon_chain.c", "vf_req.c", "ref_pixel.c", "vf.c"]}}
+CHAIN_MON = {"mon_chain": {"sources": ["mon_chain.c", "vf_recipes.c", "vf_req.c", "ref_pixel.c", "vf.c"]}}
 CHAINS_QUICK = [("default", ""), ("no-ssse3", "ssse3"), ("mmx-top", "sse2 ssse3"), ("c-only", "mmx sse2 ssse3"), ("general-only", "fast mmx sse2 ssse3"),
                 ("wholeops", "wholeops"), ("wholeops-general", "wholeops fast mmx sse2 ssse3")]
 
@@ -195,7 +195,7 @@ PROPS = {
         assumptions=["byte model written from the statement; the filler is taken modulo 2^bpp"],
     ),
     "C03": dict(
-        level="exploration", monitors={"mon_c03": {"sources": ["mon_c03.c", "vf_req.c", "ref_pixel.c", "vf.c"]}},
+        level="exploration", monitors={"mon_c03": {"sources": ["mon_c03.c", "vf_recipes.c", "vf_req.c", "ref_pixel.c", "vf.c"]}},
         runs=[dict(name="plain-guards", monitor="mon_c03", flavour="plain", cases={"quick": 12000, "thorough": 600000}),
               dict(name="general-only", monitor="mon_c03", flavour="plain", config="general-only", env=GENERAL_ONLY, cases={"quick": 5000, "thorough": 250000}),
               dict(name="asan", monitor="mon_c03", flavour="asan", cases={"quick": 3000, "thorough": 100000})],
